@@ -147,6 +147,14 @@ func scenarios(p *world.PKI) []scen {
 						}, nil)
 					}
 				}
+				if cr.name == "ecdsa" {
+					// A CA-flagged certificate for the attacker's own key (issued by nobody the victim trusts) first,
+					// the victim's valid certificate behind it, signed with the attacker's key: the first entry is the
+					// leaf whatever its basic constraints say; a later entry that validates proves nothing.
+					add("certificate-list[own-ca-flagged-then-victim]-signed-by-own-key", chainVerdict, func(c, s *world.Cfg) {
+						s.Cert = &tls.Certificate{Certificate: [][]byte{p.OtherCA.Raw, cr.cert.Certificate[0]}, PrivateKey: p.OtherCAKey, Leaf: p.OtherCA}
+					}, nil)
+				}
 				if !v13 && cr.name == "ecdsa" {
 					// The attacker knows only the victim's certificate (public key): it claims a scheme without
 					// prehash (Ed25519) for the ECDSA certificate and sends a signature forged for the empty digest.
@@ -263,6 +271,13 @@ func scenarios(p *world.PKI) []scen {
 						c.Cert = nil
 						c.Cred = "none"
 						c.ExtraClient = []dtls.ClientOption{force(&p.ClientExpired)}
+					}, nil)
+					// A CA-flagged certificate for the rogue's own key (issued by nobody the server trusts) first, a
+					// valid client certificate (public data) behind it, CertificateVerify by the rogue's key.
+					add("certificate-list[own-ca-flagged-then-victim]-signed-by-own-key", chain, func(c, s *world.Cfg) {
+						c.Cert = nil
+						c.Cred = "none"
+						c.ExtraClient = []dtls.ClientOption{force(&tls.Certificate{Certificate: [][]byte{p.OtherCA.Raw, cr.cert.Certificate[0]}, PrivateKey: p.OtherCAKey, Leaf: p.OtherCA})}
 					}, nil)
 				}
 				// proof-of-possession deviations
